@@ -20,6 +20,8 @@ mod mon_c09;
 mod mon_c10;
 mod mon_c13;
 mod mon_c14;
+mod mon_c15;
+mod mon_c17;
 mod mon_c18;
 mod mon_c19;
 mod mon_c20;
@@ -42,6 +44,8 @@ fn main() {
         "c10" => mon_c10::run(&args),
         "c13" => mon_c13::run(&args),
         "c14" => mon_c14::run(&args),
+        "c15" => mon_c15::run(&args),
+        "c17" => mon_c17::run(&args),
         "c18" => mon_c18::run(&args),
         "c19" => mon_c19::run(&args),
         "c20" => mon_c20::run(&args),
